@@ -18,3 +18,104 @@ pub mod base_hooks {
 #[cfg(all(kani, cberner_raptorq_verif_playback))]
 #[path = "/verif/.build/playback/pb.rs"]
 mod playback;
+
+// K-SPARSE (C16, BOUNDED): the sparse matrix against the dense matrix (which V-DENSE proves equal to the abstract bit array)
+#[cfg(kani)]
+pub(crate) mod kani_sparse {
+    use crate::matrix::{BinaryMatrix, DenseBinaryMatrix};
+    use crate::octet::Octet;
+    use crate::sparse_matrix::SparseBinaryMatrix;
+
+    fn oct(b: bool) -> Octet {
+        if b { Octet::one() } else { Octet::zero() }
+    }
+
+    fn same_cells(s: &SparseBinaryMatrix, d: &DenseBinaryMatrix, h: usize, w: usize) {
+        let i: usize = kani::any();
+        let j: usize = kani::any();
+        kani::assume(i < h && j < w);
+        assert!(s.get(i, j) == d.get(i, j), "C16 sparse matrix cell == dense matrix cell");
+    }
+
+    // freezing columns into the dense tail across the 127 -> 128 -> 129 column boundaries (2 -> 3 words per row)
+    #[kani::proof]
+    #[kani::unwind(136)]
+    pub(crate) fn sparse_freeze_across_word_boundary() {
+        const H: usize = 2;
+        const W: usize = 133;
+        let hint = 127;
+        let mut s = SparseBinaryMatrix::new(H, W, hint);
+        let mut d = DenseBinaryMatrix::new(H, W, hint);
+        // symbolic contents on a set of cells that covers every dense word, both columns to be frozen, and a sparse column
+        // symbolic values on three cells: one in each old dense word and the column frozen across the word boundary
+        // (everything else stays concrete: the sparse matrix code is too heavy for CBMC with more symbolic state)
+        let cells: [(usize, usize); 3] = [(0, W - 1), (1, W - 127), (0, W - 129)];
+        let mut k = 0;
+        while k < 3 {
+            let v: bool = kani::any();
+            s.set(cells[k].0, cells[k].1, oct(v));
+            d.set(cells[k].0, cells[k].1, oct(v));
+            k += 1;
+        }
+        s.enable_column_access_acceleration();
+        s.hint_column_dense_and_frozen(W - 128);
+        s.hint_column_dense_and_frozen(W - 129);
+        let mut k = 0;
+        while k < 3 {
+            assert!(s.get(cells[k].0, cells[k].1) == d.get(cells[k].0, cells[k].1), "C16 frozen / dense-tail cell unchanged by freezing a column");
+            k += 1;
+        }
+        assert!(s.get(1, W - 1) == d.get(1, W - 1) && s.get(0, W - 127) == d.get(0, W - 127) && s.get(1, W - 129) == d.get(1, W - 129), "C16 untouched cells stay zero");
+    }
+
+    // one symbolic operation on a small matrix: 2 x 5 with a 2-column dense tail, 5 symbolic cells
+    #[kani::proof]
+    #[kani::unwind(8)]
+    pub(crate) fn sparse_ops_small() {
+        const H: usize = 2;
+        const W: usize = 5;
+        let hint = 2;
+        let mut s = SparseBinaryMatrix::new(H, W, hint);
+        let mut d = DenseBinaryMatrix::new(H, W, hint);
+        let cells: [(usize, usize); 5] = [(0, 0), (0, 2), (1, 1), (1, 3), (0, 4)];
+        let mut k = 0;
+        while k < 5 {
+            let v: bool = kani::any();
+            s.set(cells[k].0, cells[k].1, oct(v));
+            d.set(cells[k].0, cells[k].1, oct(v));
+            k += 1;
+        }
+        let mut step = 0;
+        while step < 1 {
+            let op: u8 = kani::any();
+            let a: usize = kani::any();
+            let b: usize = kani::any();
+            kani::assume(a < H && b < H);
+            match op % 3 {
+                0 => {
+                    s.swap_rows(a, b);
+                    d.swap_rows(a, b);
+                }
+                1 => {
+                    let ca: usize = kani::any();
+                    let cb: usize = kani::any();
+                    kani::assume(ca < W - hint && cb < W - hint);
+                    s.swap_columns(ca, cb, 0);
+                    d.swap_columns(ca, cb, 0);
+                }
+                _ => {
+                    if a != b {
+                        s.add_assign_rows(a, b, 0);
+                        d.add_assign_rows(a, b, 0);
+                    }
+                }
+            }
+            step += 1;
+        }
+        same_cells(&s, &d, H, W);
+        let r: usize = kani::any();
+        kani::assume(r < H);
+        assert!(s.count_ones(r, 0, W - hint) == d.count_ones(r, 0, W - hint), "C16 count_ones agrees on the sparse part");
+        assert!(s.query_non_zero_columns(r, W - hint) == d.query_non_zero_columns(r, W - hint), "C16 query_non_zero_columns agrees on the dense tail");
+    }
+}
